@@ -1,8 +1,9 @@
 \* exhaustive, parameters focus: block > component, scopes and assignments only (quick)
 CONSTANTS N = 2  Par = {"p", "q"}  NVal = 2  NGrid = 2  MaxDepth = 2  MaxLevel = 6
-          GridSlot = "stack"  PickleSerial = "fresh"
+          GridSlot = "stack"  PickleSerial = "fresh"  DbSerial = "max"
 CONSTANTS Keeps <- KeepsTwo  Acts <- ActsParams  Parent0 <- ParentD  Cls0 <- ClsD
           ParOf <- McParOf  GridCls <- McGridCls  MatCls <- McMatCls
+          DbCls <- McDbCls  CopyCls <- McAllCls  CallsOf <- McCallsOf
 INIT Init
 NEXT Next
 CONSTRAINT Bound
